@@ -3,6 +3,7 @@ import Swat4.Lemmas.StoreRefine
 import Swat4.Lemmas.StoreDrv
 import Swat4.Lemmas.QueueRefine
 import Swat4.Lemmas.StoreDrvReads
+import Swat4.Lemmas.SortByKey
 /-!
 # C11 — The registry behaves as a versioned map with exact query predicates
 
@@ -882,5 +883,77 @@ theorem driver_reads_refine {s : Drv.SeqState} {a : AbsState} (hc : Consistent s
 /-- non-vacuity: the empty driver state is consistent and related to the empty registry; `Get` renders *not found* -/
 example : (Drv.runCall ⟨{}, 0, 0⟩ (.get demoServer.addr) .none).2.1 = "err:notfound" := by
   rw [(driver_reads_refine (s := ⟨{}, 0, 0⟩) consistent_empty Swat4.rel_empty .none).1]; rfl
+
+end Swat4.C11
+
+/-! # Additions (review round 3): the driver's listing comparison is order-insensitive, and only that
+
+`Drv.renderServers` (Drv/StoreRun.lean) is what the C11 driver compares listings with: it sorts the records with the
+driver-only insertion sort `Drv.sortByKey` and joins their renderings.  `filter_eq_pred` relates the Redis-level `Filter` to
+the specification *up to order*; the theorems below say the rendering removes exactly that freedom. -/
+namespace Swat4.C11
+open Swat4 Swat4.RStore Std
+
+/-- **the driver's sort is a permutation of its input**: no record is dropped, duplicated or altered before rendering -/
+theorem sortByKey_perm (xs : List Server) : (Drv.sortByKey xs).Perm xs := Drv.sortByKey_perm xs
+
+/-- … and its result is ascending in the address key -/
+theorem sortByKey_sorted (xs : List Server) : (Drv.sortByKey xs).Pairwise fun a b => a.addr.key ≤ b.addr.key :=
+  Drv.sortByKey_sorted xs
+
+/-- **for lists with pairwise distinct address keys the result does not depend on the input order** -/
+theorem sortByKey_order_independent {xs ys : List Server} (hp : xs.Perm ys) (hd : (xs.map fun s => s.addr.key).Nodup) :
+    Drv.sortByKey xs = Drv.sortByKey ys := Drv.sortByKey_order_independent hp hd
+
+/-- … hence neither does the rendered listing the driver compares -/
+theorem renderServers_order_independent {xs ys : List Server} (hp : xs.Perm ys) (hd : (xs.map fun s => s.addr.key).Nodup) :
+    Drv.renderServers xs = Drv.renderServers ys := Drv.renderServers_order_independent hp hd
+
+/-- the hypothesis "distinct keys" holds for every `Filter` result on a consistent store: `HMGET` over duplicate-free keys
+returns records stored under those keys -/
+theorem hmget_keys_nodup {st : RStore} (hc : Consistent st) (keys : List Nat) (hn : keys.Nodup) :
+    ((st.hmgetItems keys).map fun s => s.addr.key).Nodup := by
+  induction keys with
+  | nil => exact List.nodup_nil
+  | cons k ks ih =>
+    rw [List.nodup_cons] at hn
+    have hmem : ∀ s ∈ st.hmgetItems ks, s.addr.key ∈ ks := by
+      intro s hs
+      obtain ⟨k', hk', hs'⟩ := List.mem_filterMap.1 hs
+      rw [hc.keyed k' s hs']; exact hk'
+    show (((k :: ks).filterMap fun k => st.items[k]?).map fun s => s.addr.key).Nodup
+    rw [List.filterMap_cons]
+    cases hk : st.items[k]? with
+    | none => exact ih hn.2
+    | some r =>
+      show ((r :: st.hmgetItems ks).map fun s => s.addr.key).Nodup
+      rw [List.map_cons, List.nodup_cons]
+      refine ⟨?_, ih hn.2⟩
+      intro hin
+      obtain ⟨s, hs, hsk⟩ := List.mem_map.1 hin
+      have : s.addr.key ∈ ks := hmem s hs
+      rw [hsk, hc.keyed k r hk] at this
+      exact hn.1 this
+
+/-- **what the C11 driver's comparison of a `Filter` item establishes**: on a consistent store standing for specification
+state `a`, the rendering of the Redis-level `Filter` (index pipeline + `HMGET`, in whatever order Go's set operations
+produce the keys) is *the same string* as the rendering of the specification's `filter` — `filter_eq_pred` (same records up
+to order) + order independence of the driver's sort -/
+theorem filter_render_eq {st : RStore} {a : AbsState} (hc : Consistent st) (hrel : Rel st a) (fs : FilterSet) :
+    Drv.renderServers (st.hmgetItems (st.filterKeys fs)) = Drv.renderServers (a.filter fs) :=
+  renderServers_order_independent (filter_eq_pred hc hrel fs) (hmget_keys_nodup hc _ (nodup_filterKeys st fs))
+
+/-- non-vacuity of the hypotheses of `sortByKey_order_independent`: two records with distinct keys in both orders -/
+example :
+    let a : Server := { addr := ⟨1, 1⟩, queryPort := 1, status := 0#9, info := [], details := ⟨[], [], []⟩, refreshedAt := none, version := 0 }
+    let b : Server := { a with addr := ⟨2, 1⟩ }
+    Drv.sortByKey [a, b] = Drv.sortByKey [b, a] ∧ Drv.sortByKey [b, a] = [a, b] := by
+  decide
+
+/-- … and the hypothesis is needed: two records under one key keep their input order -/
+example :
+    let a : Server := { addr := ⟨1, 1⟩, queryPort := 1, status := 0#9, info := [], details := ⟨[], [], []⟩, refreshedAt := none, version := 0 }
+    let b : Server := { a with version := 1 }
+    Drv.sortByKey [a, b] ≠ Drv.sortByKey [b, a] := Drv.sortByKey_same_key_witness
 
 end Swat4.C11
